@@ -554,7 +554,8 @@ def run(chk, model_ok):
             continue
         dec = len(p) >= 2 and all(p[j] > p[j + 1] for j in range(len(p) - 1))
         inc = len(p) >= 2 and all(p[j] < p[j + 1] for j in range(len(p) - 1))
-        if (dec and not is_rev) or (inc and not is_fwd and nb > 1):
+        # only two-vertex bounds follow the direction of the axis; others are never reordered
+        if (nb == 2 and ((dec and not is_rev) or (inc and not is_fwd))) or (nb != 2 and not is_fwd):
             explained.add(("bounds", c["i"]))
             chk.fail("property", "bounds-reversal-rule",
                      f"1-d construct indexed with {c['idx']} (positions {p}): bounds {'not ' if dec else ''}reversed",
@@ -630,8 +631,8 @@ def run(chk, model_ok):
                 p = cp[0]
                 dec = len(con["axes"]) == 1 and len(p) >= 2 and all(p[j] > p[j + 1] for j in range(len(p) - 1))
                 inc = len(p) >= 2 and all(p[j] < p[j + 1] for j in range(len(p) - 1))
-                if not (same or samer) or (len(con["axes"]) > 1 and not same) or (dec and not samer) or \
-                        (len(con["axes"]) == 1 and inc and not same):
+                if not (same or samer) or (len(con["axes"]) > 1 and not same) or (nb == 2 and dec and not samer) or \
+                        (len(con["axes"]) == 1 and inc and not same) or (nb != 2 and not same):
                     problems.append(f"construct {con} bounds")
             spans = any(a in axis_pos for a in con["axes"])
             cons_lit.append((con["axes"], c0["data"]["shape"], c1["data"]["shape"] if spans else None))
